@@ -22,8 +22,9 @@ type Blockchain struct {
 	mut         sync.Mutex
 	pruneHeight hotstuff.View
 	blocks      map[hotstuff.Hash]*hotstuff.Block
-	// blockAtHeight map[hotstuff.View][]*hotstuff.Block
-	blockAtHeight map[hotstuff.View]*hotstuff.Block
+	// blockAtHeight holds every known block of a view above the prune height;
+	// an equivocating leader or a fork can give a view more than one block.
+	blockAtHeight map[hotstuff.View][]*hotstuff.Block
 	pendingFetch  map[hotstuff.Hash]context.CancelFunc // allows a pending fetch operation to be canceled
 }
 
@@ -40,7 +41,7 @@ func New(
 		logger:    logger,
 
 		blocks:        make(map[hotstuff.Hash]*hotstuff.Block),
-		blockAtHeight: make(map[hotstuff.View]*hotstuff.Block),
+		blockAtHeight: make(map[hotstuff.View][]*hotstuff.Block),
 		pendingFetch:  make(map[hotstuff.Hash]context.CancelFunc),
 	}
 	bc.Store(hotstuff.GetGenesis())
@@ -59,7 +60,7 @@ func (chain *Blockchain) Store(block *hotstuff.Block) {
 	}
 
 	chain.blocks[block.Hash()] = block
-	chain.blockAtHeight[block.View()] = block
+	chain.blockAtHeight[block.View()] = append(chain.blockAtHeight[block.View()], block)
 
 	// cancel any pending fetch operations
 	if cancel, ok := chain.pendingFetch[block.Hash()]; ok {
@@ -81,15 +82,18 @@ func (chain *Blockchain) LocalGet(hash hotstuff.Hash) (*hotstuff.Block, bool) {
 
 // DeleteAtHeight deletes the block with the provided block hash at the given height.
 func (chain *Blockchain) DeleteAtHeight(height hotstuff.View, blockHash hotstuff.Hash) error {
-	block, ok := chain.blockAtHeight[height]
+	blocks, ok := chain.blockAtHeight[height]
 	if !ok {
 		return fmt.Errorf("no blocks at height %d", height)
 	}
-
-	strHash := blockHash.String()
-	if block.Hash().String() == strHash {
-		delete(chain.blockAtHeight, height)
-		return nil
+	for i, block := range blocks {
+		if block.Hash() == blockHash {
+			chain.blockAtHeight[height] = append(blocks[:i:i], blocks[i+1:]...)
+			if len(chain.blockAtHeight[height]) == 0 {
+				delete(chain.blockAtHeight, height)
+			}
+			return nil
+		}
 	}
 	return fmt.Errorf("block not found at height %d", height)
 }
@@ -127,7 +131,7 @@ func (chain *Blockchain) Get(hash hotstuff.Hash) (block *hotstuff.Block, ok bool
 	chain.logger.Debugf("Successfully fetched block: %s", hash.SmallString())
 
 	chain.blocks[hash] = block
-	chain.blockAtHeight[block.View()] = block
+	chain.blockAtHeight[block.View()] = append(chain.blockAtHeight[block.View()], block)
 
 done:
 	chain.mut.Unlock()
@@ -149,30 +153,28 @@ func (chain *Blockchain) Extends(block, target *hotstuff.Block) bool {
 	return ok && current.Hash() == target.Hash()
 }
 
-// PruneToHeight prunes the blockchain to the given height.
-func (chain *Blockchain) PruneToHeight(committedHeight, height hotstuff.View) (forkedBlocks []*hotstuff.Block) {
+// PruneToHeight prunes the blockchain up to the view of the newly committed block and returns
+// the known blocks above the previous prune height that are not on the committed chain (forked blocks).
+func (chain *Blockchain) PruneToHeight(committed *hotstuff.Block) (forkedBlocks []*hotstuff.Block) {
 	chain.mut.Lock()
 	defer chain.mut.Unlock()
 
-	committedViews := make(map[hotstuff.View]bool)
-	committedViews[committedHeight] = true
-	for h := committedHeight; h >= chain.pruneHeight; {
-		block, ok := chain.blockAtHeight[h]
+	height := committed.View()
+	// the committed chain: follow the parent links from the committed block down to the prune height.
+	// The height index cannot be used for this: a view may hold more than one block.
+	onCommittedChain := make(map[hotstuff.Hash]bool)
+	for block := committed; block.View() > chain.pruneHeight; {
+		onCommittedChain[block.Hash()] = true
+		parent, ok := chain.blocks[block.Parent()]
 		if !ok {
 			break
 		}
-		parent, ok := chain.blocks[block.Parent()]
-		if !ok || parent.View() < chain.pruneHeight {
-			break
-		}
-		h = parent.View()
-		committedViews[h] = true
+		block = parent
 	}
 
 	for h := height; h > chain.pruneHeight; h-- {
-		if !committedViews[h] {
-			block, ok := chain.blockAtHeight[h]
-			if ok {
+		for _, block := range chain.blockAtHeight[h] {
+			if !onCommittedChain[block.Hash()] {
 				chain.logger.Debugf("PruneToHeight: found forked block: %v", block)
 				forkedBlocks = append(forkedBlocks, block)
 			}
